@@ -312,9 +312,30 @@ Print Assumptions C01_nonvacuous.
    published (C01_unmodified and the replay below); and the delivered ids split into a replayed
    part and a live part such that the live part is a subsequence of the published ids (C01_order)
    and every replayed id was published before every live id (C01_prefill_before_registration,
-   C01_order_window).  The hypothesis of C01_out_at_most_once on the join replay is discharged
-   for the RTP pack cache: a replay only holds published packets and never repeats an id. *)
+   C01_order_window); the replayed part must have the shape of (the beginning of) a join replay of
+   the RTP pack cache: at most one VPS, one SPS, one PPS packet in this order, then, only with the
+   GOP cache on, a key-frame start followed in published order by video packets none of which
+   starts a key frame (C01_rcache_replay_shape) - without this the split "everything is replay"
+   would make the order clause empty.  The hypothesis of C01_out_at_most_once on the join replay
+   is discharged for the RTP pack cache: a replay only holds published packets and never repeats
+   an id. *)
 From V Require Import LtsOracle LtsOracleProofs.
+
+Theorem C01_rcache_replay_shape : forall c : lcase, l_var c = fixed -> forall i,
+  exists v s p g,
+    c_prefill (s_cs (lrun c) i) = opt_list v ++ opt_list s ++ opt_list p ++ g /\
+    (forall q, v = Some q -> In q (l_pkts c) /\ p_kind q = 5%Z) /\
+    (forall q, s = Some q -> In q (l_pkts c) /\ p_kind q = 3%Z) /\
+    (forall q, p = Some q -> In q (l_pkts c) /\ p_kind q = 4%Z) /\
+    subseq g (l_pkts c) /\
+    (forall q, In q g -> is_media q = true) /\
+    match g with
+    | [] => True
+    | k :: r => p_key k = true /\ forall q, In q r -> p_key q = false
+    end /\
+    (g <> [] -> l_gop c = true).
+Proof. exact (fun c H i => proj2 (proj2 (proj2 (prefill_facts c H i)))). Qed.
+Print Assumptions C01_rcache_replay_shape.
 
 Theorem C01_rcache_replay_no_repeat : forall c : lcase, l_var c = fixed -> forall i,
   (forall x, In x (c_prefill (s_cs (lrun c) i)) -> In x (l_pkts c)) /\
